@@ -203,9 +203,14 @@ def check(model, rep):
     # cannot self-lock
     from sa.core import Report
     from checks import c13
-    dep = Report('C13')
-    c13.check(model, dep)
-    rep.absorb(dep, {'C13.lock-table': 'C03.hold.lock-table', 'C13.only-if': 'C03.hold.only-if'})
+    if not getattr(check, '_skip_c13', False):        # (C13 re-reads this module's Euler rules in turn: no recursion)
+        dep = Report('C13')
+        c13.check._skip_c03 = True
+        try:
+            c13.check(model, dep)
+        finally:
+            c13.check._skip_c03 = False
+        rep.absorb(dep, {'C13.lock-table': 'C03.hold.lock-table', 'C13.only-if': 'C03.hold.only-if'})
     # "between two consecutive instants dt apart": the recorded instants must be the integrator's dt apart (C11's grid rule),
     # and the hold state must not leak from an earlier schedule (C12's fresh-start initialisation of solver state)
     from checks import c11, c12
